@@ -19,46 +19,71 @@ META = {
 }
 
 TABLES = ["MACRO_RECURSION_COST", "INCLUDE_RECURSION_COST", "MAX_RECURSION_ENV", "C11_REENTRY_SITES",
-          "C11_DEPTH_CHECK", "C11_LIMIT_CLAMP", "C11_INCLUDE_EXITS", "C11_DECR_DEPTH"]
+          "C11_DEPTH_CHECK", "C11_LIMIT_CLAMP", "C11_INCLUDE_EXITS", "C11_DECR_DEPTH", "C11_CONTEXT_SITES", "C11_LIMIT_SOURCE",
+          "MAX_RECURSION_PARSER"]
 TWO_MIB = 2 << 20
-NOISE_NAME = {"0": "none", "1": "include-missing", "2": "include-missing-list", "3": "include", "4": "import", "5": "from-import",
+NOISE_NAME = {"d": "lazy-load-deep-expr", "e": "lazy-load-deep-ast", "f": "lazy-load-deep-stmts", "g": "swallowed-lazy-syntax-error",
+              "h": "swallowed-lazy-parser-limit", "0": "none", "1": "include-missing", "2": "include-missing-list", "3": "include", "4": "import", "5": "from-import",
               "6": "macro-call", "7": "call-block", "8": "with-for", "9": "render_block", "a": "call_macro",
               "b": "swallowed-missing-include", "c": "swallowed-failing-include"}
 CLASS = {"B": "block-cycle(self.block/super/render_block)", "S": "super-chain", "T": "include-cycle",
          "M": "macro-cycle", "L": "recursive-loop", "N": "depth-neutral-loop"}
 
 
-def build_o0(r):
-    """unoptimised debug build (what `cargo build`/`cargo test` give a user): the harness profile
-    has opt-level 1, so override it through the environment, in a target dir of its own"""
+# build profiles: `hooks` = minijinja with feature verif_hooks (high-water marks, depth probes: the
+# accounting correspondence); the others are built with `--no-default-features` of the harness
+# package, i.e. minijinja WITHOUT verif_hooks — the crate as users compile it — and carry the stack
+# oracle (the instrumentation enlarges the interpreter's frames, so an overflow of the instrumented
+# build alone says nothing about the property).
+PROFILES = {
+    "hooks": dict(hooks=True, opt0=False, release=False, tiers=("quick", "thorough")),
+    "debugO0": dict(hooks=False, opt0=True, release=False, tiers=("quick", "thorough")),
+    "release": dict(hooks=False, opt0=False, release=True, tiers=("quick", "thorough")),
+    "debug": dict(hooks=False, opt0=False, release=False, tiers=("thorough",)),
+    "hooksO0": dict(hooks=True, opt0=True, release=False, tiers=("thorough",)),
+}
+LAZY = "defgh"
+
+
+def build_variant(r, name):
+    """one build of harness bin c11; own target dirs so that the variants do not evict each other.
+    opt0: unoptimised debug build (what `cargo build`/`cargo test` give a user; the harness profile
+    has opt-level 1, overridden through the environment)"""
+    p = PROFILES[name]
+    if p["hooks"] and not p["opt0"] and not p["release"]:
+        return r.cargo_build("c11")
     env = dict(common.ENV)
-    env["CARGO_PROFILE_DEV_OPT_LEVEL"] = "0"
-    env["CARGO_TARGET_DIR"] = common.CARGO_TARGET + "-c11-O0"
-    rc, out, err = common.sh(["cargo", "build", "--offline", "--bin", "c11"], cwd=common.HARNESS, timeout=3000, env=env)
+    cmd = ["cargo", "build", "--offline", "--bin", "c11"]
+    target = common.CARGO_TARGET + "-c11" + ("" if p["hooks"] else "-nohooks") + ("-O0" if p["opt0"] else "")
+    if not p["hooks"]:
+        cmd.append("--no-default-features")
+    if p["release"]:
+        cmd.append("--release")
+    if p["opt0"]:
+        env["CARGO_PROFILE_DEV_OPT_LEVEL"] = "0"
+    env["CARGO_TARGET_DIR"] = target
+    rc, out, err = common.sh(cmd, cwd=common.HARNESS, timeout=3000, env=env)
     if rc != 0:
-        r.log("cargo build (opt-level 0) FAILED:\n" + err[-3000:])
-        r.broken.append("harness c11 (opt-level 0) does not build against /repo's current tree: "
+        r.log(f"cargo build ({name}) FAILED:\n" + err[-3000:])
+        r.broken.append(f"harness c11 ({name}) does not build against /repo's current tree: "
                         + " | ".join(re.findall(r"^error.*", err, re.M)[:3]))
         return None
-    return os.path.join(env["CARGO_TARGET_DIR"], "debug", "c11")
+    return os.path.join(target, "release" if p["release"] else "debug", "c11")
 
 
 def builds(r):
-    """profile name -> executable; built concurrently (separate target dirs / profiles)"""
-    jobs = {"debug": lambda: r.cargo_build("c11"), "debugO0": lambda: build_o0(r)}
-    if r.tier == "thorough":
-        jobs["release"] = lambda: r.cargo_build("c11", release=True)
+    """profile name -> executable; built concurrently"""
+    names = [n for n, p in PROFILES.items() if r.tier in p["tiers"]]
     res = {}
 
-    def work(name, f):
-        res[name] = f()
-    # debug and release share one target dir (cargo serialises them through its lock)
-    ts = [threading.Thread(target=work, args=(n, f)) for n, f in jobs.items()]
+    def work(name):
+        res[name] = build_variant(r, name)
+    ts = [threading.Thread(target=work, args=(n,)) for n in names]
     for t in ts:
         t.start()
     for t in ts:
         t.join()
-    return {n: res.get(n) for n in jobs}
+    return {n: res.get(n) for n in names}
 
 
 def parse_case(case):
@@ -66,7 +91,15 @@ def parse_case(case):
     return shape, int(limit), int(budget), thread
 
 
+def is_lazy(shape):
+    fam = shape[0]
+    if fam in "TMB":
+        return any(e[4] in LAZY for e in shape[2:].split(","))
+    return fam == "N" and shape[3] in LAZY
+
+
 def evaluate(r, profile, lines, model, stats, max_recursion):
+    hooks = PROFILES[profile]["hooks"]
     for i, line in enumerate(lines):
         f = line.split("\t")
         if len(f) != 9:
@@ -74,16 +107,28 @@ def evaluate(r, profile, lines, model, stats, max_recursion):
             continue
         case, status, hwd, hwn, topk, rootk, nbytes, over, drift = f
         shape, limit, budget, thread = parse_case(case)
+        thread_base, _, mode = thread.partition("+")
         fam = shape[0]
         cls = CLASS.get(fam, fam)
+        # a template compiled lazily on top of the recursion is a second consumer of native stack
+        site_cls = f"lazy-parse-at-depth/{cls}" if is_lazy(shape) else cls
         hwd, hwn, nbytes, over = int(hwd), int(hwn), int(nbytes), int(over)
         full = f"{profile} {case}"
-        r.count(full, nontrivial=(hwd >= 3 or status.startswith("signal")))
+        ms = md = mn = None
+        if model is not None:
+            mc, ms, md, mn = model[i].split("\t")
+            md, mn = int(md), int(mn)
+            if mc != case:
+                r.broken.append("model driver output does not line up with the harness cases")
+                model, ms = None, None
+        depth_seen = hwd if hooks else (md or 0)
+        r.count(full, nontrivial=(depth_seen >= 3 or status.startswith("signal")))
         r.hist["profile"][profile] += 1
         r.hist["family"][cls] += 1
         r.hist["status"][status.split(":")[0] + (":" + status.split(":")[1] if status.startswith("err") else "")] += 1
         r.hist["limit"][limit] += 1
-        r.hist["thread"][thread] += 1
+        r.hist["thread"][thread_base] += 1
+        r.hist["entry_point"][mode or "render"] += 1
         r.hist["top_error_kind"][topk] += 1
         if fam in "TMB":
             for e in shape[2:].split(","):
@@ -95,37 +140,44 @@ def evaluate(r, profile, lines, model, stats, max_recursion):
         bound = max(min(limit, max_recursion), 1)   # set_recursion_limit clamps to MAX_RECURSION
         crashed = status.startswith(("signal", "exit", "panic"))
         # ---------------------------------------------------------------- oracle (the property)
-        if crashed:
+        if crashed and hooks:
+            # the instrumented interpreter has larger frames: not evidence about the real crate
+            r.hist["overflow_of_instrumented_build_only_counted"][f"{profile}:{thread_base}:{site_cls}"] += 1
+        elif crashed:
             r.oracle_failure(full, f"child did not survive the recursive render: {status} (native stack overflow) instead of 'recursion limit exceeded'",
-                             f"stack-overflow:{profile}:{thread}:{cls}")
+                             f"stack-overflow:{profile}:{thread_base}:{site_cls}")
         else:
             if status.startswith("err:other") or status.startswith("bad-case"):
                 r.oracle_failure(full, f"recursive render failed with {status}, not with the recursion error", f"wrong-error:{cls}")
             if budget == 0 and fam in "TMB" and status != "err:recursion":
                 r.oracle_failure(full, f"unbounded recursion returned {status}", f"unbounded-recursion-not-cut:{cls}")
-            if drift != "-":
+            if hooks and drift != "-":
                 kind = drift.split(":")[0]
                 r.oracle_failure(full, f"Context::depth() is not restored by a completed nested construct ({drift}): every completed "
                                        f"include/import/macro/block/with/for must leave the depth as it found it, or the limit does not bound the nesting",
                                  f"depth-not-restored:{kind}")
-            if hwn > bound or hwd > bound:
+            if hooks and (hwn > bound or hwd > bound):
                 r.oracle_failure(full, f"high-water marks exceed the limit {limit}: depth {hwd}, nested eval_impl {hwn}", f"high-water-exceeds-limit:{cls}")
         # ---------------------------------------------------------------- correspondence
-        if model is not None and not crashed:
-            mc, ms, md, mn = model[i].split("\t")
-            if mc != case:
-                r.broken.append("model driver output does not line up with the harness cases")
-                model = None
-            elif (status, hwd, hwn) != (ms, int(md), int(mn)):
+        if ms is not None and not crashed:
+            if hooks and (status, hwd, hwn) != (ms, md, mn):
                 r.model_disagreement(full, f"{status} depth={hwd} native={hwn}", f"{ms} depth={md} native={mn}")
+            elif not hooks and status != ms:
+                r.model_disagreement(full, status, ms)
         # ---------------------------------------------------------------- measurements
-        if not crashed and budget == 0 and hwd >= 50 and nbytes > 0 and fam != "N":
+        st = stats[profile]
+        if hooks and fam == "N" and shape[2] == "t" and limit == 500 and thread_base == "t2m" and not crashed:
+            st["lazy"][shape[3]] = nbytes
+        if hooks:
+            dd, nn = hwd, hwn
+        else:
+            dd, nn = (md or 0), (mn or 0)
+        if not crashed and budget == 0 and dd >= 50 and nbytes > 0 and fam != "N" and not is_lazy(shape) and not mode:
             key = shape[:-1] if ("," not in shape and shape.endswith("0000")) else f"({fam}: mixed/with work/noise)"
             if fam == "S":
                 key = "S:super()"
-            st = stats[profile]
-            per_unit = nbytes / (hwd - 1)
-            per_level = nbytes / max(hwn - 1, 1)
+            per_unit = nbytes / (dd - 1)
+            per_level = nbytes / max(nn - 1, 1)
             e = st["kinds"].setdefault(key, {"bytes_per_depth_unit": 0.0, "bytes_per_level": 0.0, "class": cls})
             e["bytes_per_depth_unit"] = max(e["bytes_per_depth_unit"], round(per_unit, 1))
             e["bytes_per_level"] = max(e["bytes_per_level"], round(per_level, 1))
@@ -135,7 +187,7 @@ def evaluate(r, profile, lines, model, stats, max_recursion):
                 c["witness"] = case
             c["max_bytes_seen"] = max(c["max_bytes_seen"], nbytes)
             st["overhead"] = max(st["overhead"], over)
-        if i % 397 == 0:
+        if i % 797 == 0:
             r.sample({"case": full, "result": status, "hw_depth": hwd, "hw_native": hwn, "stack_bytes": nbytes})
 
 
@@ -153,6 +205,7 @@ def run(r):
               "run reaches Context::depth() >= 3 (or dies).")
     r.assumptions = [
         "stack bytes per re-entry are measured on this toolchain/target, not proved",
+        "a lazily loaded template is compiled on top of the recursion with the parser's own, separate recursion budget",
         "frame pushes/pops inside one interpreter activation are balanced (compiled code; C05)",
         "templates only: a Rust callback that starts a fresh render does not inherit the depth",
         "the `stacker` feature is off (with it the limit is not clamped and the stack grows on demand)",
@@ -164,7 +217,7 @@ def run(r):
     # built and the oracle searches for a failing input in any case (correspondence only if the
     # model driver still builds)
     exes = {p: e for p, e in builds(r).items() if e is not None}
-    stats = {p: {"kinds": {}, "classes": {}, "overhead": 0} for p in exes}
+    stats = {p: {"kinds": {}, "classes": {}, "overhead": 0, "lazy": {}} for p in exes}
     model = None
     cases_text = None
     for profile, exe in exes.items():
@@ -189,6 +242,15 @@ def run(r):
     report = {}
     for profile, s in stats.items():
         rows = {}
+        if PROFILES[profile]["hooks"]:
+            # the instrumented builds only contribute the parser's share: bytes of a lazily compiled
+            # template with 140 guarded parser levels, relative to the include of a tiny template
+            base = s["lazy"].get("3")
+            lazy = {NOISE_NAME[k]: {"bytes": v, "parser_bytes": (v - base) if base else None,
+                                    "per_parser_level_of_140": round((v - base) / 140, 1) if base and k == "d" else None}
+                    for k, v in sorted(s["lazy"].items()) if k in LAZY}
+            report[profile] = {"instrumented": True, "lazy_compile_at_top_level": lazy}
+            continue
         for cls, c in s["classes"].items():
             projected = s["overhead"] + 500 * c["max_bytes_per_depth_unit"]
             margin = TWO_MIB - projected
@@ -200,9 +262,10 @@ def run(r):
                                 f"+ {s['overhead']} B > 2 MiB (witness {c['witness']}) although no child died")
         report[profile] = {"per_pure_cycle": s["kinds"], "per_class": rows, "entry_overhead_bytes": s["overhead"]}
     r.extra["stack_measurements"] = {
-        "note": "MEASURED, not proved. bytes = stack pointer excursion from the first eval_impl activation to the deepest point seen "
-                "(hook at eval_impl entry and inside the harness function tick()); per depth unit = bytes / (max Context::depth() - 1); "
-                "the proved bound is depth <= limit, so stack <= overhead + limit x max(bytes per depth unit).",
+        "note": "MEASURED, not proved, on builds WITHOUT verif_hooks (the crate as users compile it). bytes = stack pointer excursion from the "
+                "start of the case to the deepest call of the harness function tick(); per depth unit = bytes / (max Context::depth() - 1) with the "
+                "depth the model predicts (equal to the hook's in the instrumented build); the proved bound is depth <= limit, so stack <= "
+                "limit x max(bytes per depth unit) (+ parser bytes when a template is compiled lazily at depth: second budget, C11_partial_lazy).",
         "two_MiB": TWO_MIB, "profiles": report,
     }
     r.extra["lean_snapshot_check"] = snapshot_check(report)
@@ -245,7 +308,7 @@ def replay(r, path):
             continue
         profile, rest = case.split(" ", 1)
         if profile not in exes:
-            exes[profile] = build_o0(r) if profile == "debugO0" else r.cargo_build("c11", release=(profile == "release"))
+            exes[profile] = build_variant(r, profile if profile in PROFILES else "hooks")
         rc, out, err = r.harness(exes[profile], ["one"] + rest.split(" "))
         print(f"engine ({profile}):", out.strip())
         model = r.driver("drive_c11", rest + "\n")
